@@ -46,11 +46,14 @@ Record tstate := mkts {
   t_over : N;
   t_usc : N;             (* task->user_stack_count *)
   t_last : N;            (* task->rstack->time : time of the last record read *)
-  t_lastx : N            (* time of the last EXIT record (report --task: task->timestamp_last) *)
+  t_lastx : N;           (* report --task: task->timestamp_last = time of the last ENTRY/EXIT record *)
+  t_legacy : bool        (* modelling device: true = the code before the fix of report_update_node's recursion
+                            test (frames inherited at fork, addr 0, were taken for recursive calls) *)
 }.
 
-Definition init_state (max_stack : N) : tstate :=
-  mkts false false [] (repeat slot0 (N.to_nat max_stack)) 0 0 0 0.
+Definition init_state_gen (legacy : bool) (max_stack : N) : tstate :=
+  mkts false false [] (repeat slot0 (N.to_nat max_stack)) 0 0 0 0 legacy.
+Definition init_state := init_state_gen false.
 
 Definition is_exit (r : rec) := match r_type r with EXIT => true | _ => false end.
 Definition is_lost (r : rec) := match r_type r with LOST => true | _ => false end.
@@ -76,7 +79,7 @@ Definition upd (arr : list slot) (i : N) (f : slot -> slot) : list slot :=
 
 Definition with_stack (st : tstate) (k : N) (arr : list slot) : tstate :=
   let '(lv, dd, ov) := split_at k arr in
-  mkts (t_set st) (t_lost st) lv dd ov (t_usc st) (t_last st) (t_lastx st).
+  mkts (t_set st) (t_lost st) lv dd ov (t_usc st) (t_last st) (t_lastx st) (t_legacy st).
 
 (* fstack_account_time, first part: "if (!task->fstack_set)" and "if (task->lost_seen)" *)
 Definition prepare (st : tstate) (r : rec) : tstate :=
@@ -86,13 +89,13 @@ Definition prepare (st : tstate) (r : rec) : tstate :=
     else
       let arr := mapi (fun i s => if i <? k then mkslot (s_addr s) (r_time r) 0 true else s) 0 (arr_of st) in
       let st' := with_stack st k arr in
-      mkts true (t_lost st') (t_live st') (t_dead st') (t_over st') (t_usc st') (t_last st') (t_lastx st') in
+      mkts true (t_lost st') (t_live st') (t_dead st') (t_over st') (t_usc st') (t_last st') (t_lastx st') (t_legacy st') in
   if t_lost st1 && negb (is_lost r) then
     let u := t_usc st1 in
     let arr := mapi (fun i s => if (u <=? i) && (i <=? u + r_depth r)
                                 then mkslot (s_addr s) (sub64 (r_time r) 1) 0 (s_valid s) else s) 0 (arr_of st1) in
     let st' := with_stack st1 k arr in
-    mkts (t_set st') false (t_live st') (t_dead st') (t_over st') (t_usc st') (t_last st') (t_lastx st')
+    mkts (t_set st') false (t_live st') (t_dead st') (t_over st') (t_usc st') (t_last st') (t_lastx st') (t_legacy st')
   else st1.
 
 (* parent's child_time += d *)
@@ -102,7 +105,10 @@ Definition bump (stk : list slot) (d : N) : list slot :=
   | p :: t => mkslot (s_addr p) (s_total p) (add64 (s_child p) d) (s_valid p) :: t
   end.
 
-Definition has_addr (a : N) (stk : list slot) : bool := existsb (fun s => s_addr s =? a) stk.
+(* report_update_node: "if (check->addr && check->addr == fstack->addr) recursive = true"
+   (legacy: without the "check->addr &&") *)
+Definition has_addr (legacy : bool) (a : N) (stk : list slot) : bool :=
+  existsb (fun s => (legacy || negb (s_addr s =? 0)) && (s_addr s =? a)) stk.
 
 (* LOST: "for (i = task->stack_count; i >= task->user_stack_count; i--)" of fstack_account_time *)
 Fixpoint lost_loop (n : nat) (i lt : N) (arr : list slot) : list slot :=
@@ -121,7 +127,7 @@ Fixpoint lost_loop (n : nat) (i lt : N) (arr : list slot) : list slot :=
   end.
 
 (* add_lost_fstack of cmds/report.c: "while (task->stack_count >= task->user_stack_count)" *)
-Fixpoint lost_rows (n : nat) (i : N) (arr : list slot) : list row :=
+Fixpoint lost_rows (leg : bool) (n : nat) (i : N) (arr : list slot) : list row :=
   match n with
   | O => []
   | S n' =>
@@ -129,32 +135,32 @@ Fixpoint lost_rows (n : nat) (i : N) (arr : list slot) : list row :=
         match get arr i with
         | Some s => if s_valid s
                     then [mkrow (s_addr s) (s_total s) (sub64 (s_total s) (s_child s))
-                                (has_addr (s_addr s) (firstn (N.to_nat i) arr))]
+                                (has_addr leg (s_addr s) (firstn (N.to_nat i) arr))]
                     else []
         | None => []
         end in
-      here ++ (if i =? 0 then [] else lost_rows n' (i - 1) arr)
+      here ++ (if i =? 0 then [] else lost_rows leg n' (i - 1) arr)
   end.
 
 (* one record of one task in build_function_tree: fstack_account_time, fstack_update_stack_count,
    then the body of the read loop.  Returns the new state and the rows added to the name tree. *)
 Definition step (st0 : tstate) (r : rec) : tstate * list row :=
   if t_lost st0 && is_lost r then
-    (mkts (t_set st0) true (t_live st0) (t_dead st0) (t_over st0) (t_usc st0) (r_time r) (t_lastx st0), [])
+    (mkts (t_set st0) true (t_live st0) (t_dead st0) (t_over st0) (t_usc st0) (r_time r) (t_lastx st0) (t_legacy st0), [])
   else
   let st := prepare st0 r in
   let tm := r_time r in
   match r_type r with
   | ENTRY =>
       match t_dead st with
-      | [] => (mkts true (t_lost st) (t_live st) [] (t_over st + 1) (t_usc st + 1) tm (t_lastx st), [])
+      | [] => (mkts true (t_lost st) (t_live st) [] (t_over st + 1) (t_usc st + 1) tm tm (t_legacy st), [])
       | _ :: dd =>
-          (mkts true (t_lost st) (mkslot (r_addr r) tm 0 true :: t_live st) dd 0 (t_usc st + 1) tm (t_lastx st), [])
+          (mkts true (t_lost st) (mkslot (r_addr r) tm 0 true :: t_live st) dd 0 (t_usc st + 1) tm tm (t_legacy st), [])
       end
   | EXIT =>
       let usc' := t_usc st - 1 in
       if 0 <? t_over st then
-        (mkts true (t_lost st) (t_live st) (t_dead st) (t_over st - 1) usc' tm tm, [])
+        (mkts true (t_lost st) (t_live st) (t_dead st) (t_over st - 1) usc' tm tm (t_legacy st), [])
       else
         match t_live st with
         | [] =>
@@ -163,25 +169,25 @@ Definition step (st0 : tstate) (r : rec) : tstate * list row :=
                         | [] => []
                         | d :: _ => [mkrow (r_addr r) (s_total d) (sub64 (s_total d) (s_child d)) false]
                         end in
-            (mkts true (t_lost st) [] (t_dead st) 0 usc' tm tm, rows)
+            (mkts true (t_lost st) [] (t_dead st) 0 usc' tm tm (t_legacy st), rows)
         | top :: rest =>
             let delta := if s_valid top then sub64 tm (s_total top) else 0 in
             let child := if delta <? s_child top then delta else s_child top in
             let top' := mkslot (s_addr top) delta child false in
-            (mkts true (t_lost st) (bump rest delta) (top' :: t_dead st) 0 usc' tm tm,
-             [mkrow (r_addr r) delta (sub64 delta child) (has_addr (s_addr top) rest)])
+            (mkts true (t_lost st) (bump rest delta) (top' :: t_dead st) 0 usc' tm tm (t_legacy st),
+             [mkrow (r_addr r) delta (sub64 delta child) (has_addr (t_legacy st) (s_addr top) rest)])
         end
   | LOST =>
       let sc := sc_of st in
       let u := t_usc st in
       if sc <? u then
-        (mkts true true (t_live st) (t_dead st) (t_over st) u tm (t_lastx st), [])
+        (mkts true true (t_live st) (t_dead st) (t_over st) u tm (t_lastx st) (t_legacy st), [])
       else
         let n := S (N.to_nat (sc - u)) in
         let arr := lost_loop n sc 0 (arr_of st) in
-        let rows := lost_rows n sc arr in
+        let rows := lost_rows (t_legacy st) n sc arr in
         let st' := with_stack st (u - 1) arr in
-        (mkts true true (t_live st') (t_dead st') (t_over st') u tm (t_lastx st), rows)
+        (mkts true true (t_live st') (t_dead st') (t_over st') u tm (t_lastx st) (t_legacy st), rows)
   end.
 
 Fixpoint run (st : tstate) (out : list row) (rs : list rec) : tstate * list row :=
@@ -194,23 +200,24 @@ Fixpoint run (st : tstate) (out : list row) (rs : list rec) : tstate * list row 
 Definition bumpc (extra : option N) (child : N) : N :=
   match extra with None => child | Some d => add64 child d end.
 (* [extra]: what the frame above just added to this frame's child_time ("fstack[-1].child_time += ...") *)
-Fixpoint remaining_from (last : N) (extra : option N) (stk : list slot) : list row :=
+Fixpoint remaining_from (leg : bool) (last : N) (extra : option N) (stk : list slot) : list row :=
   match stk with
   | [] => []
   | top :: rest =>
       let child := bumpc extra (s_child top) in
-      if last <? s_total top then remaining_from last None rest
+      if last <? s_total top then remaining_from leg last None rest
       else
         let tot := sub64 last (s_total top) in
         let tot' := if tot <? child then child else tot in
-        mkrow (s_addr top) tot' (sub64 tot' child) (has_addr (s_addr top) rest)
-        :: remaining_from last (Some tot') rest
+        mkrow (s_addr top) tot' (sub64 tot' child) (has_addr leg (s_addr top) rest)
+        :: remaining_from leg last (Some tot') rest
   end.
-Definition remaining (last : N) (stk : list slot) : list row := remaining_from last None stk.
+Definition remaining (leg : bool) (last : N) (stk : list slot) : list row := remaining_from leg last None stk.
 
-Definition task_rows (max_stack : N) (rs : list rec) : list row :=
-  let '(st, out) := run (init_state max_stack) [] rs in
-  out ++ remaining (t_last st) (t_live st).
+Definition task_rows_gen (legacy : bool) (max_stack : N) (rs : list rec) : list row :=
+  let '(st, out) := run (init_state_gen legacy max_stack) [] rs in
+  out ++ remaining legacy (t_last st) (t_live st).
+Definition task_rows := task_rows_gen false.
 
 (* ------------------------------------------------------------------ the node table *)
 Record stat := mkstat { sum : N; recs : N; smin : N; smax : N; avg : N }.
@@ -261,8 +268,12 @@ Definition table_of_rows (nms : names) (rows : list row) : list node :=
 
 Record case := mkcase { c_max : N; c_names : names; c_tasks : list (list rec) }.
 
-Definition all_rows (c : case) : list row := concat (map (task_rows (c_max c)) (c_tasks c)).
-Definition report (c : case) : list node := table_of_rows (c_names c) (all_rows c).
+Definition all_rows_gen (legacy : bool) (c : case) : list row :=
+  concat (map (task_rows_gen legacy (c_max c)) (c_tasks c)).
+Definition report_gen (legacy : bool) (c : case) : list node := table_of_rows (c_names c) (all_rows_gen legacy c).
+(* the code as it is now *)
+Definition all_rows := all_rows_gen false.
+Definition report := report_gen false.
 
 (* ------------------------------------------------------------------ sorting (-s keys) *)
 Inductive key := K_total | K_total_avg | K_total_min | K_total_max
@@ -322,8 +333,9 @@ Definition diff_is_zero (d : N * (bool * N) * (bool * N) * (bool * N)) : bool :=
   let '(_, (_, a), (_, b), (_, c)) := d in (a =? 0) && (b =? 0) && (c =? 0).
 
 (* ------------------------------------------------------------------ report --task *)
-(* report_task skips ENTRY and LOST records before the filter check, counts every EXIT, then
-   add_remaining_task_fstack (last_time = time of the last EXIT; slots with addr 0 skipped);
+(* report_task notes the time of every ENTRY/EXIT record (timestamp_last), skips ENTRY and LOST records
+   before the filter check, counts every EXIT, then add_remaining_task_fstack (last_time = timestamp_last;
+   slots with addr 0 skipped; legacy: timestamp_last was only set at EXIT records);
    adjust_task_runtime: Total = Self = sum of the self times, "Num funcs" = number of rows.
    Modelled for LOST-free tasks only. *)
 Fixpoint remaining_task_from (last : N) (extra : option N) (stk : list slot) : list row :=
@@ -342,28 +354,37 @@ Definition task_line (max_stack : N) (rs : list rec) : N * N :=      (* (total =
   let '(st, out) := run (init_state max_stack) [] rs in
   let rows := out ++ remaining_task (t_lastx st) (t_live st) in
   (fold_left (fun s w => add64 s (w_self w)) rows 0, N.of_nat (length rows)).
+Definition last_exit_time (rs : list rec) : N :=
+  fold_left (fun t r => if is_exit r then r_time r else t) rs 0.
+Definition task_line_legacy (max_stack : N) (rs : list rec) : N * N :=
+  let '(st, out) := run (init_state max_stack) [] rs in
+  let rows := out ++ remaining_task (last_exit_time rs) (t_live st) in
+  (fold_left (fun s w => add64 s (w_self w)) rows 0, N.of_nat (length rows)).
 
 (* ------------------------------------------------------------------ __print_time_unit *)
 (* the text "ddd.fff uu" as (ddd, fff, unit index 0..4 = us ms s m h); None = blank (value 0) *)
-Definition limits : list N := [1000; 1000; 1000; 60; 24].
-Definition next_limit (idx : nat) : N := nth (S idx) limits 2147483647.
-Fixpoint unit_loop (ls : list N) (idx : nat) (delta : N) : N * N * nat :=
+Definition limits : list N := [1000; 1000; 1000; 60; 60].
+Definition limits_legacy : list N := [1000; 1000; 1000; 60; 24].     (* before the fix: hours = minutes / 24 *)
+Definition next_limit (all : list N) (idx : nat) : N := nth (S idx) all 2147483647.
+Fixpoint unit_loop (all ls : list N) (idx : nat) (delta : N) : N * N * nat :=
   match ls with
   | [] => (delta, 0, idx)                    (* not reached: the last limit is INT_MAX *)
   | l :: t =>
       let small := delta mod l in
       let d := delta / l in
-      if (d <? next_limit idx) || (match t with [] => true | _ => false end) then (d, small, idx)
-      else unit_loop t (S idx) d
+      if (d <? next_limit all idx) || (match t with [] => true | _ => false end) then (d, small, idx)
+      else unit_loop all t (S idx) d
   end.
 (* the argument is taken as int64_t and llabs() is applied *)
 Definition llabs64 (ns : N) : N := if ns <? 9223372036854775808 then ns else M64 - ns.
-Definition fmt_time (ns : N) : option (N * N * N) :=
+Definition fmt_time_with (all : list N) (ns : N) : option (N * N * N) :=
   if ns =? 0 then None
   else
-    let '(d, s, idx) := unit_loop limits 0 (llabs64 ns) in
+    let '(d, s, idx) := unit_loop all all 0 (llabs64 ns) in
     let '(d, s) := if 999 <? d then (999, 999) else (d, s) in
     Some (d, s, N.of_nat idx).
+Definition fmt_time := fmt_time_with limits.
+Definition fmt_time_legacy := fmt_time_with limits_legacy.
 
 (* ------------------------------------------------------------------ ground truth and checker *)
 (* a completed call: address, entry time, exit time, callees *)
@@ -593,10 +614,13 @@ Fixpoint insert_diff (x : node * node) (l : list (node * node)) : list (node * n
 Definition diff_report (base pair : list node) : list (node * node) :=
   fold_left (fun acc x => insert_diff x acc) (diff_pairs base pair) [].
 (* a difference cell: None = "0 us" / "+0"; Some (a minus sign is printed, ddd, fff, unit).
-   __print_time_unit without colours: signs[] = { "+", "-" } indexed by (delta_nsec > 0), i.e. an INCREASE
-   is printed with "-" (with colours the index is recomputed and the sign is right) - modelled as it is *)
+   legacy (before the fix of __print_time_unit): without colours signs[] = { "+", "-" } was indexed by
+   (delta_nsec > 0), i.e. an INCREASE was printed with "-" *)
 Definition dcell := option (bool * N * N * N).
 Definition show_dtime (b p : N) : dcell :=
+  let '(neg, m) := sdiff b p in
+  match fmt_time m with None => None | Some (d, f, u) => Some (neg, d, f, u) end.
+Definition show_dtime_legacy (b p : N) : dcell :=
   let '(neg, m) := sdiff b p in
   match fmt_time m with None => None | Some (d, f, u) => Some (negb neg, d, f, u) end.
 Definition show_dcount (b p : N) : dcell :=
@@ -630,8 +654,8 @@ Fixpoint dlines_eqb (a b : list dline) : bool :=
 Definition ok_dtime (b p : N) (c : dcell) : bool :=
   match c with
   | None => b =? p
-  | Some (_, d, f, u) => negb (b =? p) && ok_cell (if p <? b then b - p else p - b) (Some (d, f, u))
-  end.       (* the sign of a time difference is not judged: it is inverted without colours (reported) *)
+  | Some (neg, d, f, u) => negb (b =? p) && Bool.eqb neg (p <? b) && ok_cell (if p <? b then b - p else p - b) (Some (d, f, u))
+  end.
 Definition ok_dcount (b p : N) (c : dcell) : bool :=
   match c with
   | None => b =? p
@@ -723,7 +747,7 @@ Fixpoint grun (f : nat -> tstate) (out : list row) (ms : list (nat * rec)) : (na
   end.
 Definition merged_rows (max_stack : N) (n : nat) (ms : list (nat * rec)) : list row :=
   let '(f, out) := grun (fun _ => init_state max_stack) [] ms in
-  out ++ concat (map (fun i => remaining (t_last (f i)) (t_live (f i))) (seq 0 n)).
+  out ++ concat (map (fun i => remaining false (t_last (f i)) (t_live (f i))) (seq 0 n)).
 (* the records of task i, in their own order *)
 Definition proj (i : nat) (ms : list (nat * rec)) : list rec :=
   map snd (filter (fun p => Nat.eqb (fst p) i) ms).
